@@ -13,7 +13,7 @@ export PYTHONHASHSEED=0 PIP_NO_INDEX=1 PYTHONPATH=/repo:$PWD/tools
     if [ -f $d.ml ]; then
       cores=$(ls ${d}_core.mli ${d}_core.ml 2>/dev/null || true)
       [ "$d" = hidvm ] && cores="hidvm_core.mli hidvm_core.ml"
-      ocamlfind ocamlopt -O3 -w -a $cores $d.ml -o $d 2>&1 | tail -3 || echo "setup: building $d failed"
+      ocamlfind ocamlopt -package unix -linkpkg -O3 -w -a $cores $d.ml -o $d 2>&1 | tail -3 || echo "setup: building $d failed"
     fi
   done )
 # 4. ISA fidelity: upstream tests/test_codegen.py, unchanged, on the verified VM
